@@ -36,15 +36,20 @@ def fd_grad(f, x):
     return g
 
 
-def check_pair(viol, lab, f_call, f_s1, x, ref_f, n_expected, fd=True):
-    """Common oracle for one log-pdf at one point. Returns outcome."""
+def check_pair(viol, lab, f_call, f_s1, x, ref_f, n_expected, fd=True,
+               rel=tol.REL, abs_=tol.ABS):
+    """Common oracle for one log-pdf at one point. Returns outcome. `rel`, `abs_`:
+    tolerance for score against score (closed form by default; the ODE tolerance
+    for likelihoods driven by a numerically integrated model, whose plain and
+    sensitivity-augmented systems are integrated separately)."""
     x = np.asarray(x, dtype=float)
     plain = f_call(x.copy())
     res = f_s1(x.copy())
     score, grad = res[0], np.asarray(res[1], dtype=float)
     plain2 = f_call(x.copy())   # history: call, S1, call
     res2 = f_s1(x.copy())
-    if not tol.close(plain2, plain) or not tol.close(res2[0], score):
+    if not tol.close(plain2, plain, rel, abs_) or \
+            not tol.close(res2[0], score, rel, abs_):
         viol.append({'sub': 'history', 'message': 'call/S1/call/S1 history gives '
                      'different results (%s)' % lab, 'expected': [plain, score],
                      'observed': [plain2, res2[0]], 'behaviour': 'history'})
@@ -60,7 +65,7 @@ def check_pair(viol, lab, f_call, f_s1, x, ref_f, n_expected, fd=True):
         return [plain, score]
     if not np.isfinite(plain):
         return [plain, score]
-    if not tol.close(score, plain):
+    if not tol.close(score, plain, rel, abs_):
         viol.append({'sub': 'score', 'message': 'score returned with the '
                      'sensitivities differs from plain evaluation (%s)' % lab,
                      'expected': plain, 'observed': score, 'behaviour': 's1_score'})
@@ -264,7 +269,8 @@ def w_sbml(case):
     lab = 'SBML %s route=%s pre_sens=%s fixed=%s renamed=%s' % (
         case['model'], case.get('route'), case.get('pre_sens'), fixed,
         case.get('rename'))
-    out = check_pair(viol, lab, ll, ll.evaluateS1, x, None, len(free))
+    out = check_pair(viol, lab, ll, ll.evaluateS1, x, None, len(free),
+                     rel=tol.ODE_REL, abs_=tol.ODE_ABS)
     # one injected solver failure: both evaluations report -inf, later ones recover
     if case.get('inject'):
         for which in ('call', 'S1'):
@@ -286,7 +292,14 @@ def w_sbml(case):
     return {'transitions': 14, 'outcome': tol.rnd(out, 7), 'violations': viol}
 
 
-WORKERS = {'sbml': w_sbml, 'fix_histories': w_history,
+def w_filter_post(case):
+    """PopulationFilterLogPosterior is a log-posterior too: score and gradient against
+    the reference assembled in C13 (complex-step gradient of every entry)."""
+    from . import c13
+    return c13.w_post(case)
+
+
+WORKERS = {'filter_posterior': w_filter_post, 'sbml': w_sbml, 'fix_histories': w_history,
            'individual': w_individual, 'hierarchical': w_hier,
            'boundary_individual': w_individual, 'boundary_hier': w_hier}
 
@@ -305,6 +318,15 @@ def build(tier, seed):
         for t0 in grids:
             for t1 in grids:
                 ind.append(c01.make_case(ems, [t0, t1], 2, [0, 1], seed))
+    # outputs without any measurement (first / middle / last, not all)
+    for ems in itertools.product(codes, repeat=2):
+        ind.append(c01.make_case(ems, [[], ms[5]], 2, [0, 1], seed, tag='e'))
+        ind.append(c01.make_case(ems, [ms[5], []], 2, [0, 1], seed, tag='e'))
+    for ems in itertools.product(['G', 'CM', 'LN'], repeat=3):
+        for empties in ([0], [1], [2], [0, 1], [1, 2], [0, 2]):
+            ts = [[] if j in empties else ms[(3 + 2 * j) % len(ms)]
+                  for j in range(3)]
+            ind.append(c01.make_case(ems, ts, 3, [0, 1, 2], seed, tag='e'))
     # output selection
     for sel in ([2, 0], [1]):
         for ems in itertools.product(codes, repeat=len(sel)):
@@ -410,8 +432,27 @@ def build(tier, seed):
                         sb.append({'model': model, 'route': route, 'pre_sens': pre,
                                    'fix': fx, 'inject': not fx and ren is None,
                                    'seed': seed, 'rename': ren})
+    # filter posteriors: 1-2 observables x 1-3 time points x filter kinds
+    from . import c13
+    fp = []
+    t3 = sorted(vals.reals('c03.ft', 3, 0.2, 3.0, seed))
+    fspecs = [rp.Comp([rp.G(1), rp.LN(1, False), rp.P(1)]), rp.G(3),
+              rp.Comp([rp.H(1), rp.LN(2)]), rp.Comp([rp.Cov(rp.G(1)), rp.G(2, False)])]
+    for spec in fspecs:
+        for filt in (('G', 2), ('GKDE', 2), ('LN', 2)):
+            for n_obs in (1, 2):
+                for T in (1, 2, 3):
+                    for sigma_free in (False, True):
+                        if tier == 'quick' and sigma_free and T == 2:
+                            continue
+                        fp.append(c13.make_case(
+                            spec, filt, sigma_free, False, 3,
+                            [t3[2], t3[0], t3[1]][:T], n_obs, seed))
     return {
         'parts': [
+            Part('filter_posterior', fp, w_filter_post,
+                 'PopulationFilterLogPosterior: structures x filters x 1-2 '
+                 'observables x 1-3 times x sigma fixed / free (oracle of C13)'),
             Part('sbml', sb, w_sbml,
                  'SBML-driven likelihoods on the solver stand-in: models x routes x '
                  'pre-enabled sensitivities x fixed subsets x renamed parameters x '
